@@ -119,7 +119,9 @@ def make_driver(cfg):
                 log.add(None, "ready-returned", [p.wid for p in procs])
             if cfg.until_all_ready:
                 wait_ready()
-            for k, (mode, ikind, n, cs) in enumerate(cfg.calls):
+            for k, call in enumerate(cfg.calls):
+                mode, ikind, n, cs = call[:4]
+                exact = len(call) > 4 and call[4] == "exact"
                 if cfg.until_all_ready == "each" and k > 0:
                     wait_ready()
                 data = call_input(k, n)
@@ -127,8 +129,15 @@ def make_driver(cfg):
                 out["calls"].append(rec)
                 inp = vmp.LazyInput(data) if ikind == "lazy" else (iter(data) if ikind == "iter" else data)
                 gen = pool.imap(inp, cs) if mode == "imap" else pool.imap_unordered(inp, cs)
-                for v in gen:
-                    rec["yielded"].append(v)
+                if exact:
+                    # the consumer takes exactly len(data) results (zip / islice style) and closes the generator at
+                    # its last yield instead of driving it to StopIteration
+                    for _ in range(n):
+                        rec["yielded"].append(next(gen))
+                    gen.close()
+                else:
+                    for v in gen:
+                        rec["yielded"].append(v)
                 rec["finished"] = True
                 rec["leftover"] = payload_items(s)
             if cfg.until_all_ready == "each":
